@@ -140,12 +140,16 @@ def search(ctx, protos, per):
     from pyIRDecoder import IRException
     hits = {}
     rng = ctx.rng
+    # time under control: the frames of a held key arrive one frame duration apart (the virtual clock is advanced by the harness);
+    # every sequence is fed twice - back to back (clock frozen) and paced in real time
+    import props.c12 as c12
+    c12.install_clock()
     for p in protos:
         name = p['name']
         for a in gen_inputs.param_assignments(p, rng, per):
-            for n in range(5):
+            for n, paced in [(k, False) for k in range(5)] + [(2, True), (4, True)]:
                 c, e = engine.fresh_encode(p, a, repeat_count=n)
-                ctx.count_eval(key=(name, tuple(sorted(a.items())), n))
+                ctx.count_eval(key=(name, tuple(sorted(a.items())), n, paced))
                 if c is None:
                     break
                 frames = [list(f) for f in c.normalized_rlc]
@@ -154,6 +158,8 @@ def search(ctx, protos, per):
                 bad = None
                 with engine.class_guard(p['cls']):
                     for i, f in enumerate(frames):
+                        if paced and i:
+                            c12.CLOCK[0] += sum(abs(x) for x in frames[i - 1])
                         try:
                             g = inst.decode(list(f), p['frequency'])
                         except IRException as ex:
@@ -195,6 +201,9 @@ def search(ctx, protos, per):
                     if ' of the sequence raises ' in kind:
                         raised = kind.split(' raises ')[1]
                         kind = 'a frame of the sequence is rejected'
+                    fi = bad[1].get('frame_index')
+                    pos = 'none' if fi is None else ('first' if fi == 0 else ('last' if fi == len(frames) - 1 else 'inner'))
+                    info['sig'] = 'n%d:%s:%s%s' % (min(n, 2), pos, raised or ','.join(bad[1].get('differing', [])), ':paced' if paced else '')
                     ctx.report(name, kind, info, dict(protocol=name, params=a, repeat_count=n, detail=bad[1], raised=raised))
                     break
             else:
